@@ -66,6 +66,7 @@ structure Track where
   lastRetry : Option Int
   agedTicks5 : Nat := 0  -- cleanup ticks seen since age ≥ 5 min
   agedTicks60 : Nat := 0 -- cleanup ticks seen since age ≥ 1 h
+  retries : Nat := 0     -- retries observed in this lifetime
   deriving Repr
 
 /-- Per-case driver state: the model state plus the history the Specs are evaluated over. -/
@@ -371,8 +372,10 @@ def step (st : St) (line : String) : St × List String :=
                   errs := errs ++ [s!"spec {id} retry-too-early entry {e.digest} re-broadcast at age {age / 1000000000}s before the retry period elapsed"]
               let mut t := t
               if retried then
-                t := { t with lastRetry := some now }
+                t := { t with lastRetry := some now, retries := t.retries + 1 }
                 st := { st with nRetries := st.nRetries + 1 }
+                if t.retries > maxRetries then
+                  errs := errs ++ [s!"spec {id} retry-budget-exceeded entry {e.digest} has been retried {t.retries} times within one lifetime (budget {maxRetries}): it never expires"]
               if age ≥ fiveMinutes then t := { t with agedTicks5 := t.agedTicks5 + 1 }
               if age ≥ oneHour then t := { t with agedTicks60 := t.agedTicks60 + 1 }
               if !e.our && after.isSome && t.agedTicks5 ≥ 2 then
